@@ -810,6 +810,8 @@ class Emitter:
         p = '  ' * ind
         out = ''
         for (vn, dname, ctype) in reversed(self.pending_dtors.get(fn['id'], [])):
+            if self.opts.get('dtor_ghost'):
+                out += p + 'g_armed_guards--;\n'
             out += p + '%s((%s)&%s); /* L-dtor: ~%s at scope exit */\n' % (dname, ctype, vn, vn)
         return out
 
@@ -942,6 +944,14 @@ class Emitter:
                 return r
         tparsed = T.parse(t)
         is_const_scalar = tparsed[0] == 'n' and 'const' in tparsed[2]
+        if is_const_scalar and not d.get('constexpr'):
+            # a const local of class type is an ordinary (copied) object, not a compile-time constant
+            try:
+                rct = self.ctype_of(t)
+                if rct[0] == 'c' and rct[1].startswith('struct '):
+                    is_const_scalar = False
+            except ExtractError:
+                pass
         if (d.get('constexpr') or is_const_scalar) and init is not None:
             # constexpr locals: emit the folded value when available, otherwise try the initialiser
             v = self.const_value(init)
@@ -967,15 +977,21 @@ class Emitter:
                     hook = self.opts.get('local_dtor')
                     if not (self.register_local_dtor(d, rec0, fn, ind) or (hook and hook(self, d, rec0, fn))):
                         raise ExtractError('local %s of type %s has a non-trivial destructor (no lowering)' % (name, t))
+                    if self.opts.get('dtor_ghost'):
+                        # ghost count of armed scope-exit guards: incremented where the guard object comes into being,
+                        # decremented where L-dtor runs its destructor; abort points and callee stubs can then require that a
+                        # guard is armed (what unwinding would run) instead of merely counting what was already announced
+                        guard_ghost = p + 'g_armed_guards++; /* L-dtor ghost: guard %s armed */\n' % name
+        gg = locals().get('guard_ghost', '')
         if init is None:
-            return p + self.cdecl(ct, name) + ';\n'
+            return p + self.cdecl(ct, name) + ';\n' + gg
         if init['kind'] in ('CXXConstructExpr', 'CXXTemporaryObjectExpr') and self.ctor_noop(init):
-            return p + self.cdecl(ct, name) + '; /* trivial default construction */\n'
+            return p + self.cdecl(ct, name) + '; /* trivial default construction */\n' + gg
         if init['kind'] == 'InitListExpr' and ct[0] in ('a',) or (init['kind'] == 'InitListExpr' and ct[0] == 'c' and ct[1].startswith('struct')):
-            return p + self.cdecl(ct, name) + ' = ' + self.init_list(init) + ';\n'
+            return p + self.cdecl(ct, name) + ' = ' + self.init_list(init) + ';\n' + gg
         if ct[0] == 'a':
             raise ExtractError('array local with non-list init ' + name)
-        return p + '%s = %s;\n' % (self.cdecl(ct, name), self.E(init))
+        return p + '%s = %s;\n' % (self.cdecl(ct, name), self.E(init)) + gg
 
     def init_list(self, e):
         parts = []
@@ -1395,6 +1411,13 @@ class Emitter:
         ctor_t = n.get('ctorType', {}).get('qualType', '')
         ty = qt(n)
         rec = self.tu.find_record(ty)
+        if rec is None:
+            try:    # a cv-qualified object type names the same record
+                tyq = T.strip_quals(T.parse(ty))
+                if tyq[0] == 'n':
+                    rec = self.tu.find_record(tyq[1])
+            except T.TypeParseError:
+                pass
         hook = self.opts.get('construct')
         if hook:
             r = hook(self, n, ii, rec)
